@@ -197,6 +197,8 @@ func c03(r *core.Report) {
 
 	c03Refs(r)
 	c03Embed(r)
+	c03RefOnly(r)
+	c03Collect(r)
 }
 
 func lookupTag(tag, key string) (string, bool) {
@@ -756,6 +758,172 @@ func c03Embed(r *core.Report) {
 						})
 						r.Check(delegates, key, p.Pos(fd.Pos()), "calls "+en.Obj().Name()+"."+m, "does not delegate to the embedded type's "+m+": fields of the embedded type are lost or duplicated")
 					}
+				}
+			}
+		}
+	})
+}
+
+// c03RefOnly: an object that is a reference is written as the reference alone. The loader copies the
+// target's content next to the reference string it keeps (a path item) or into Value (the wrappers);
+// a marshaller that writes any of it next to "$ref" invents fields the input did not have.
+func c03RefOnly(r *core.Report) {
+	p := r.Prog
+	r.RunRule("C03.refonly", "a reference is written as `$ref` alone: in every MarshalYAML / MarshalJSON of packages openapi3 and openapi2 the branch taken when the receiver's Ref is non-empty returns a value of the one-field type Ref (or delegates to the marshaller of such a value) on every path — never a map or struct carrying other fields of the receiver, which after loading hold the target's content", 10, func() {
+		for _, rel := range []string{"openapi3", "openapi2"} {
+			pkg := p.PkgOpt(rel)
+			if pkg == nil {
+				continue
+			}
+			info := pkg.TypesInfo
+			for _, d := range p.AllDecls(rel) {
+				if d.Recv == nil || d.Body == nil || (d.Name.Name != "MarshalYAML" && d.Name.Name != "MarshalJSON") {
+					continue
+				}
+				if len(d.Recv.List[0].Names) == 0 {
+					continue
+				}
+				recv := info.ObjectOf(d.Recv.List[0].Names[0])
+				// if statements whose condition tests recv.Ref (directly or through `ref := recv.Ref`)
+				ast.Inspect(d.Body, func(n ast.Node) bool {
+					is, ok := n.(*ast.IfStmt)
+					if !ok {
+						return true
+					}
+					testsRef := false
+					var refVar types.Object
+					if as, ok := is.Init.(*ast.AssignStmt); ok && len(as.Lhs) == 1 && len(as.Rhs) == 1 {
+						if sel, ok := ast.Unparen(as.Rhs[0]).(*ast.SelectorExpr); ok && sel.Sel.Name == "Ref" {
+							if id, ok := ast.Unparen(sel.X).(*ast.Ident); ok && info.ObjectOf(id) == recv {
+								if l, ok := as.Lhs[0].(*ast.Ident); ok {
+									refVar = info.ObjectOf(l)
+								}
+							}
+						}
+					}
+					if be, ok := ast.Unparen(is.Cond).(*ast.BinaryExpr); ok && be.Op == token.NEQ {
+						if s, ok := strConst(info, be.Y); ok && s == "" {
+							switch x := ast.Unparen(be.X).(type) {
+							case *ast.Ident:
+								testsRef = refVar != nil && info.ObjectOf(x) == refVar
+							case *ast.SelectorExpr:
+								if id, ok := ast.Unparen(x.X).(*ast.Ident); ok && x.Sel.Name == "Ref" && info.ObjectOf(id) == recv {
+									testsRef = true
+								}
+							}
+						}
+					}
+					if !testsRef {
+						return true
+					}
+					key := fmt.Sprintf("refonly:%s.%s", rel, core.FuncName(d))
+					bad := ""
+					nret := 0
+					ast.Inspect(is.Body, func(m ast.Node) bool {
+						ret, ok := m.(*ast.ReturnStmt)
+						if !ok || len(ret.Results) == 0 {
+							return true
+						}
+						nret++
+						e := ast.Unparen(ret.Results[0])
+						if ce, ok := e.(*ast.CallExpr); ok {
+							// json.Marshal(Ref{...}) / x.MarshalYAML() on a Ref value
+							if len(ce.Args) == 1 {
+								e = ast.Unparen(ce.Args[0])
+							} else if sel, ok := ast.Unparen(ce.Fun).(*ast.SelectorExpr); ok {
+								e = ast.Unparen(sel.X)
+							}
+						}
+						if u, ok := e.(*ast.UnaryExpr); ok && u.Op == token.AND {
+							e = ast.Unparen(u.X)
+						}
+						t := info.TypeOf(e)
+						nn := core.NamedOf(t)
+						if nn == nil || nn.Obj().Name() != "Ref" {
+							bad = fmt.Sprintf("returns %s (%v) at %s", core.ExprStr(ret.Results[0]), t, p.Pos(ret.Pos()))
+						}
+						return true
+					})
+					switch {
+					case bad != "":
+						r.Bad(key, p.Pos(is.Pos()), "when the receiver is a reference the marshaller "+bad+" instead of the bare reference: fields standing next to $ref are written out, and after loading those fields hold the referenced object's content, so the output has keys the input did not have")
+					case nret == 0:
+						r.Unknown(key, p.Pos(is.Pos()), "the reference branch has no return")
+					default:
+						r.OK(key, p.Pos(is.Pos()), "the reference branch writes the bare reference")
+					}
+					return false
+				})
+			}
+		}
+	})
+}
+
+// c03Collect: unknown fields survive because every UnmarshalJSON decodes the raw object a second time
+// into Extensions (and then deletes the known keys). That second decode must run for every input.
+func c03Collect(r *core.Report) {
+	p := r.Prog
+	r.RunRule("C03.collect", "unknown fields and extensions are collected for every input: in each UnmarshalJSON of packages openapi3 and openapi2 that deletes known keys from the receiver's Extensions, the decode of the raw bytes into Extensions is executed unconditionally (only earlier error returns may precede it) — a decode that depends on the input's text (`if bytes.Contains(data, ...)`) silently drops fields", 20, func() {
+		for _, rel := range []string{"openapi3", "openapi2"} {
+			pkg := p.PkgOpt(rel)
+			if pkg == nil {
+				continue
+			}
+			info := pkg.TypesInfo
+			for _, d := range p.AllDecls(rel) {
+				if d.Recv == nil || d.Body == nil || d.Name.Name != "UnmarshalJSON" {
+					continue
+				}
+				deletes := false
+				var decode *ast.CallExpr
+				ast.Inspect(d.Body, func(n ast.Node) bool {
+					c, ok := n.(*ast.CallExpr)
+					if !ok {
+						return true
+					}
+					if id, ok := ast.Unparen(c.Fun).(*ast.Ident); ok && id.Name == "delete" && len(c.Args) == 2 {
+						if sel, ok := ast.Unparen(c.Args[0]).(*ast.SelectorExpr); ok && sel.Sel.Name == "Extensions" {
+							deletes = true
+						}
+					}
+					if f := core.CalleeOf(info, c); f != nil && f.Pkg() != nil && f.Name() == "Unmarshal" && len(c.Args) == 2 {
+						if u, ok := ast.Unparen(c.Args[1]).(*ast.UnaryExpr); ok && u.Op == token.AND {
+							if sel, ok := ast.Unparen(u.X).(*ast.SelectorExpr); ok && sel.Sel.Name == "Extensions" {
+								decode = c
+							}
+						}
+					}
+					return true
+				})
+				if !deletes {
+					continue
+				}
+				key := fmt.Sprintf("collect:%s.%s", rel, core.FuncName(d))
+				if decode == nil {
+					r.Bad(key, p.Pos(d.Pos()), "known keys are deleted from Extensions but the raw object is never decoded into it: every unknown field and extension is lost on load")
+					continue
+				}
+				cond := ""
+				for _, a := range core.Atoms(core.GuardsAt(info, d.Body, decode)) {
+					// earlier `if err != nil { return }` checks are fine
+					onlyErr := false
+					if be, ok := ast.Unparen(a.Expr).(*ast.BinaryExpr); ok {
+						for _, pair := range [][2]ast.Expr{{be.X, be.Y}, {be.Y, be.X}} {
+							if tv, ok := info.Types[pair[1]]; ok && tv.IsNil() {
+								if t := info.TypeOf(pair[0]); t != nil && isErrorType(t) {
+									onlyErr = true
+								}
+							}
+						}
+					}
+					if !onlyErr {
+						cond = core.ExprStr(a.Expr)
+					}
+				}
+				if cond != "" {
+					r.Bad(key, p.Pos(decode.Pos()), fmt.Sprintf("the decode of the raw object into Extensions runs only when `%s`: for the other inputs every field the type does not declare (and, because the known keys are then deleted from a nil map, nothing else) is dropped on load and missing from the output", cond))
+				} else {
+					r.OK(key, p.Pos(decode.Pos()), "unconditional")
 				}
 			}
 		}
